@@ -146,4 +146,141 @@ theorem exitSteps_spec (ord : DropOrder) (fs : List Field) :
       · rw [b]; simp [List.contains_cons]
       · rw [c]; simp [List.contains_cons]
 
+theorem restoreAll_twice (o1 o2 : DropOrder) (ms : MState) :
+    restoreAll o2 (restoreAll o1 ms) = restoreAll o1 ms := by
+  unfold restoreAll
+  cases o1 <;> cases o2 <;> simp [dropGuards]
+
+/-- the `Drop::drop` body: keeps the release invariant; memory is either untouched or fully
+    restored in the body's order; the lock is only let go by a `lock` step; nothing new is
+    raised while already unwinding -/
+theorem bodySteps_spec (ord : DropOrder) (fs : List Field) :
+    ∀ e : ExitState, ExitOK e →
+      ExitOK (bodySteps ord true e fs) ∧
+      ((bodySteps ord true e fs).ms = e.ms ∨ (bodySteps ord true e fs).ms = restoreAll ord e.ms) ∧
+      (fs.contains Field.lock = false → (bodySteps ord true e fs).lockHeld = e.lockHeld) ∧
+      (e.panicking = true → (bodySteps ord true e fs).newPanics = e.newPanics ∧
+        (bodySteps ord true e fs).panicking = true) := by
+  induction fs with
+  | nil => intro e h; simp [bodySteps, h]
+  | cons f fs ih =>
+    intro e h
+    obtain ⟨ems, epk, enp, eab, elh, evf⟩ := e
+    have ha : eab = false := h.1
+    subst ha
+    have h2 : enp = 0 ∨ (enp = 1 ∧ epk = true) := h.2
+    simp only [bodySteps, Bool.false_eq_true, if_false]
+    cases f with
+    | guards =>
+      simp only
+      obtain ⟨a, b, c, d⟩ := ih { ms := restoreAll ord ems, panicking := epk, newPanics := enp, abort := false, lockHeld := elh, verifs := evf } ⟨rfl, h2⟩
+      refine ⟨a, ?_, ?_, d⟩
+      · right
+        rcases b with b | b
+        · exact b
+        · rw [b]; exact restoreAll_idem ord ems
+      · intro hl
+        have : fs.contains Field.lock = false := by
+          simp only [List.contains_cons, Bool.or_eq_false_iff] at hl; exact hl.2
+        exact c this
+    | verifiers =>
+      simp only
+      obtain ⟨v1, v2, v3, _, v5, v6⟩ := dropVerifs_spec evf { ms := ems, panicking := epk, newPanics := enp, abort := false, lockHeld := elh, verifs := evf } rfl
+      simp only at v2 v3 v5 v6
+      generalize dropVerifs true { ms := ems, panicking := epk, newPanics := enp, abort := false, lockHeld := elh, verifs := evf } evf = D at *
+      have h' : ExitOK { D with verifs := [] } := by
+        refine ⟨v1, ?_⟩
+        show D.newPanics = 0 ∨ (D.newPanics = 1 ∧ D.panicking = true)
+        rcases h2 with h0 | ⟨h1, hp⟩
+        · rw [v5, h0, v6]
+          cases epk <;> cases anyMismatch evf <;> simp
+        · rw [v5, h1, v6, hp]; simp
+      by_cases hgt : D.newPanics > enp
+      · rw [if_pos hgt]
+        refine ⟨h', Or.inl v2, fun _ => v3, ?_⟩
+        intro hp
+        have hp' : epk = true := hp
+        exfalso
+        rw [v5, hp'] at hgt
+        simp at hgt
+      · rw [if_neg hgt]
+        obtain ⟨a, b, c, d⟩ := ih _ h'
+        refine ⟨a, ?_, ?_, ?_⟩
+        · rcases b with b | b
+          · left; rw [b]; exact v2
+          · right; rw [b]; show restoreAll ord D.ms = _; rw [v2]
+        · intro hl
+          have : fs.contains Field.lock = false := by
+            simp only [List.contains_cons, Bool.or_eq_false_iff] at hl; exact hl.2
+          rw [c this]; exact v3
+        · intro hp
+          have hp' : epk = true := hp
+          have hDp : D.panicking = true := by rw [v6, hp']; rfl
+          obtain ⟨d1, d2⟩ := d hDp
+          refine ⟨?_, d2⟩
+          rw [d1]
+          show D.newPanics = enp
+          rw [v5, hp']; simp
+    | lock =>
+      simp only
+      obtain ⟨a, b, c, d⟩ := ih { ms := ems, panicking := epk, newPanics := enp, abort := false, lockHeld := false, verifs := evf } ⟨rfl, h2⟩
+      refine ⟨a, b, ?_, d⟩
+      intro hl
+      simp [List.contains_cons] at hl
+    | other =>
+      obtain ⟨a, b, c, d⟩ := ih { ms := ems, panicking := epk, newPanics := enp, abort := false, lockHeld := elh, verifs := evf } ⟨rfl, h2⟩
+      refine ⟨a, b, ?_, d⟩
+      intro hl
+      have : fs.contains Field.lock = false := by
+        simp only [List.contains_cons, Bool.or_eq_false_iff] at hl; exact hl.2
+      exact c this
+    | unknown =>
+      obtain ⟨a, b, c, d⟩ := ih { ms := ems, panicking := epk, newPanics := enp, abort := false, lockHeld := elh, verifs := evf } ⟨rfl, h2⟩
+      refine ⟨a, b, ?_, d⟩
+      intro hl
+      have : fs.contains Field.lock = false := by
+        simp only [List.contains_cons, Bool.or_eq_false_iff] at hl; exact hl.2
+      exact c this
+
+/-- **Two-phase release** when the `Drop::drop` body starts with the restore loop: whatever
+    follows in the body and whatever the field order, every exit (normal, unwinding, or with a
+    verification panic raised on the way) restores in the body's order, never aborts, raises at
+    most one panic in total and lets the lock go iff the fields contain it. -/
+theorem scopeExit2_spec (ord : DropOrder) (rest fields : List Field) (st : LifeState)
+    (hl : rest.contains Field.lock = false) :
+    let e := scopeExit2 ord true (Field.guards :: rest) fields st
+    e.abort = false ∧ e.ms = restoreAll ord st.ms ∧
+    e.lockHeld = !(fields.contains Field.lock) ∧
+    (if st.panicked then 1 else 0) + e.newPanics ≤ 1 := by
+  intro e
+  have h0 : ExitOK { ms := restoreAll ord st.ms, panicking := st.panicked, newPanics := 0, abort := false, lockHeld := true, verifs := st.verifs } :=
+    ⟨rfl, Or.inl rfl⟩
+  obtain ⟨b1, b2, b3, b4⟩ := bodySteps_spec ord rest _ h0
+  have hb : bodySteps ord true { ms := st.ms, panicking := st.panicked, newPanics := 0, abort := false, lockHeld := true, verifs := st.verifs } (Field.guards :: rest)
+      = bodySteps ord true { ms := restoreAll ord st.ms, panicking := st.panicked, newPanics := 0, abort := false, lockHeld := true, verifs := st.verifs } rest := by
+    simp [bodySteps]
+  have he : e = exitSteps DropOrder.oldestFirst true (bodySteps ord true { ms := restoreAll ord st.ms, panicking := st.panicked, newPanics := 0, abort := false, lockHeld := true, verifs := st.verifs } rest) fields := by
+    show scopeExit2 ord true (Field.guards :: rest) fields st = _
+    unfold scopeExit2
+    rw [hb]
+  generalize bodySteps ord true { ms := restoreAll ord st.ms, panicking := st.panicked, newPanics := 0, abort := false, lockHeld := true, verifs := st.verifs } rest = B at *
+  obtain ⟨x1, x2, x3, x4⟩ := exitSteps_spec DropOrder.oldestFirst fields B b1
+  have hms : B.ms = restoreAll ord st.ms := by
+    rcases b2 with b | b
+    · exact b
+    · rw [b]; exact restoreAll_idem ord st.ms
+  rw [he]
+  refine ⟨x1.1, ?_, ?_, ?_⟩
+  · rw [x3, hms]
+    split
+    · exact restoreAll_twice ord DropOrder.oldestFirst st.ms
+    · rfl
+  · rw [x2, b3 hl]; simp
+  · by_cases hp : st.panicked = true
+    · obtain ⟨p1, p2⟩ := b4 hp
+      rw [x4 p2, p1, if_pos hp]
+      exact Nat.le_refl _
+    · rw [if_neg hp]
+      rcases x1.2 with h | ⟨h, _⟩ <;> omega
+
 end Inj.Panic
